@@ -106,9 +106,8 @@ void harness(void)
 		CHECK(get_task(TA.oid) == a && get_task(TB.oid) == b, "both UIDs map to their own task after the table grew");
 		CHECK(get_task((echs_toid_t)in.oid[NOID - 1]) == NULL, "a UID never stored is not found");
 		WITNESS_POINT();
-		return;
 	}
-#endif
+#else
 	ASSUME(in.root == 0 || in.root == 1);
 	/* the daemon runs as root (system daemon) or as user A (per-user daemon) */
 	meself.uid = in.root ? 0 : 1000;
@@ -153,4 +152,5 @@ void harness(void)
 		CHECK(!env_overflow, "stand-in registries not exhausted (bound of this harness)");
 	}
 	WITNESS_POINT();
+#endif
 }
